@@ -462,4 +462,237 @@ theorem hitobjects_block_accepted_decoded_ieee (bs : List UInt8) (st : BeatmapSt
 
 end
 
+/-! ## non-vacuity and sharpness: closed files, decoded and finalised by the kernel on actual doubles
+
+(`Trig Float` of Model/FloatInst.lean, `Trig Float32` of Model/Cmds/Curve.lean; one object per file: the finaliser's
+`List.mergeSort` does not reduce in the kernel on longer lists.) -/
+
+section Examples
+set_option maxRecDepth 100000
+
+/-- decode and finalise (kernel-evaluable on closed byte strings). -/
+def decodeFinish (bs : List UInt8) : Option (Beatmap Float Float32) :=
+  match decodeBytes (beatmapDecoder : LineDecoder (BeatmapState Float Float32)) bs with
+  | .ok st => (match st.finish with | .ok m => some m | .error _ => none)
+  | .error _ => none
+
+theorem decodeFinish_spec {bs : List UInt8} {m : Beatmap Float Float32} (h : decodeFinish bs = some m) :
+    ∃ st : BeatmapState Float Float32, decodeBytes beatmapDecoder bs = .ok st ∧ st.finish = .ok m := by
+  unfold decodeFinish at h
+  cases h1 : decodeBytes (beatmapDecoder : LineDecoder (BeatmapState Float Float32)) bs with
+  | error e => rw [h1] at h; cases h
+  | ok st =>
+    rw [h1] at h
+    simp only [] at h
+    cases h2 : st.finish with
+    | error e => rw [h2] at h; cases h
+    | ok m' => rw [h2] at h; simp only [Option.some.injEq] at h; exact ⟨st, rfl, h ▸ h2⟩
+
+/-- a mania file with one `[HitObjects]` line after a rejected one. -/
+def ieeeFileOf (l : String) : List UInt8 :=
+  (str "osu file format v14\n\n[General]\nMode: 3\n\n[HitObjects]\n1,2,3\n" ++ str l ++ str "\n").map (fun c => c.toNat.toUInt8)
+
+def fileResB (l : List HitSampleInfo) : Bool :=
+  decide (trimEnd (fileNameOf l) = fileNameOf l) && decide ('|' ∉ fileNameOf l)
+
+theorem fileRes_of_check {l : List HitSampleInfo} (h : fileResB l = true) : FileNameResidual l := by
+  unfold fileResB at h
+  simp only [Bool.and_eq_true, decide_eq_true_eq] at h
+  exact ⟨h.1, h.2⟩
+
+/-- `IntSpan` as a check: the witnesses are `t as i32`, `d as i32` (enough for spans below `2³¹`). -/
+def intSpanB (t d : Float) : Bool :=
+  decide (t = Float.ofInt (Scalar.toI32 t)) && decide (d = Float.ofInt (Scalar.toI32 d)) &&
+    decide (-2147483647 ≤ (Scalar.toI32 t : Int)) && decide (0 ≤ (Scalar.toI32 d : Int)) &&
+    decide ((Scalar.toI32 t : Int) + Scalar.toI32 d ≤ 2147483647)
+
+theorem intSpan_of_check {t d : Float} (h : intSpanB t d = true) : IntSpan t d := by
+  unfold intSpanB at h
+  simp only [Bool.and_eq_true, decide_eq_true_eq] at h
+  obtain ⟨⟨⟨⟨a1, a2⟩, a3⟩, a4⟩, a5⟩ := h
+  exact ⟨_, _, a3, a4, a5, a1, a2⟩
+
+def endOkB (t d : Float) : Bool := !(Scalar.lt (maxParseValue : Float) (t + d))
+
+theorem endOk_of_check {t d : Float} (h : endOkB t d = true) : EndOk t d := by
+  unfold endOkB at h
+  unfold EndOk
+  cases hl : Scalar.lt (maxParseValue : Float) (t + d)
+  · rfl
+  · rw [hl] at h; cases h
+
+/-- the residuals as checks (sliders: with a requested length, so that the F20 clause is void). -/
+def objResidualIntB (h : HitObject Float Float32) : Bool :=
+  match h.kind with
+  | .slider s => decide (PathShapeOk s.path.controlPoints) && s.path.expectedDist.isSome
+  | .circle _ => fileResB h.samples
+  | .spinner sp => fileResB h.samples && intSpanB h.startTime sp.duration
+  | .hold ho => fileResB h.samples && intSpanB h.startTime ho.duration
+
+def objResidualAccB (h : HitObject Float Float32) : Bool :=
+  match h.kind with
+  | .slider s => decide (PathShapeOk s.path.controlPoints) && s.path.expectedDist.isSome
+  | .circle _ => fileResB h.samples
+  | .spinner sp => fileResB h.samples && endOkB h.startTime sp.duration
+  | .hold ho => fileResB h.samples && endOkB h.startTime ho.duration
+
+theorem objResidualInt_of_check (h : HitObject Float Float32) (hb : objResidualIntB h = true) : ObjResidualInt h := by
+  unfold objResidualIntB at hb
+  unfold ObjResidualInt
+  cases hk : h.kind with
+  | slider s =>
+    rw [hk] at hb
+    simp only [Bool.and_eq_true, decide_eq_true_eq] at hb
+    exact ⟨hb.1, fun hn => by rw [hn] at hb; cases hb.2⟩
+  | circle c => rw [hk] at hb; exact fileRes_of_check hb
+  | spinner c =>
+    rw [hk] at hb; simp only [Bool.and_eq_true] at hb; exact ⟨fileRes_of_check hb.1, intSpan_of_check hb.2⟩
+  | hold c =>
+    rw [hk] at hb; simp only [Bool.and_eq_true] at hb; exact ⟨fileRes_of_check hb.1, intSpan_of_check hb.2⟩
+
+theorem objResidualAcc_of_check (h : HitObject Float Float32) (hb : objResidualAccB h = true) : ObjResidualAcc h := by
+  unfold objResidualAccB at hb
+  unfold ObjResidualAcc
+  cases hk : h.kind with
+  | slider s =>
+    rw [hk] at hb
+    simp only [Bool.and_eq_true, decide_eq_true_eq] at hb
+    exact ⟨hb.1, fun hn => by rw [hn] at hb; cases hb.2⟩
+  | circle c => rw [hk] at hb; exact fileRes_of_check hb
+  | spinner c =>
+    rw [hk] at hb; simp only [Bool.and_eq_true] at hb; exact ⟨fileRes_of_check hb.1, endOk_of_check hb.2⟩
+  | hold c =>
+    rw [hk] at hb; simp only [Bool.and_eq_true] at hb; exact ⟨fileRes_of_check hb.1, endOk_of_check hb.2⟩
+
+/-- a circle with fractional coordinates and a custom sample file; a two-segment slider with fractional / negative
+coordinates and a requested length; a spinner and a hold note with integer times (the hold ends at the parse limit). -/
+def ieeeIntLines : List String :=
+  ["256.7,-192.9,1000,5,2,2:3:7:60:hit.wav",
+   "256.7,-192.9,1000,2,0,L|300.5:10|-20:40.9|-20:40.9|100:100,1,140.5",
+   "256,192,3000,12,0,3500,1:0:0:0:",
+   "64,192,4000,128,4,2147483647:1:2:0:0:"]
+
+/-- each of the four files decodes and finalises to one object, which satisfies `ObjResidualInt` (kernel evaluation). -/
+theorem ieeeIntLines_checked : ∀ l ∈ ieeeIntLines,
+    (decodeFinish (ieeeFileOf l)).map (fun m => (m.hitObjects.length, m.hitObjects.all objResidualIntB)) = some (1, true) := by
+  decide +kernel
+
+/-- **the hypotheses of `hitobjects_block_accepted_decoded_ieee_int` (and of the circle / slider / spinner / hold theorems) are
+satisfiable on actual doubles**, and its conclusion for these files: the object is `RepObject`, the block is one line,
+accepted in any state. -/
+theorem ieeeIntLines_accepted : ∀ l ∈ ieeeIntLines,
+    ∃ (st : BeatmapState Float Float32) (m : Beatmap Float Float32),
+      decodeBytes beatmapDecoder (ieeeFileOf l) = .ok st ∧ st.finish = .ok m ∧ m.hitObjects.length = 1 ∧
+      (∀ h ∈ m.hitObjects, ObjResidualInt h) ∧
+      (∀ h ∈ m.hitObjects, RepObject IeeeRep64 IeeeRep32 m.general.mode h) ∧
+      ∃ H : List Str, encodeHitObjects m = .ok (unlines (str "[HitObjects]" :: H)) ∧ H.length = 1 ∧
+        ∀ st' : HOCore Float Float32, Accepts (parseHitObjectLine m.general.mode) st' (H.map trimEnd) := by
+  intro l hl
+  have hc := ieeeIntLines_checked l hl
+  cases hm : decodeFinish (ieeeFileOf l) with
+  | none => rw [hm] at hc; cases hc
+  | some m =>
+    rw [hm] at hc
+    simp only [Option.map_some, Option.some.injEq, Prod.mk.injEq] at hc
+    obtain ⟨st, h1, h2⟩ := decodeFinish_spec hm
+    have hres : ∀ h ∈ m.hitObjects, ObjResidualInt h :=
+      fun h hh => objResidualInt_of_check h (List.all_eq_true.mp hc.2 h hh)
+    obtain ⟨H, e1, _, e3, e4⟩ := hitobjects_block_accepted_decoded_ieee_int _ st m h1 h2 hres
+    exact ⟨st, m, h1, h2, hc.1, hres,
+      fun h hh => decoded_objects_representable_ieee_int_partial _ st m h1 h2 _ h hh (hres h hh),
+      H, e1, by rw [e3, hc.1], e4⟩
+
+/-- a spinner and a hold note with FRACTIONAL times (`0.09` … `0.34`: the drifting pair). -/
+def ieeeAccLines : List String := ["256,192,0.09,12,0,0.34", "64,192,0.09,128,0,0.34:0:0:0:0:"]
+
+/-- what the kernel computes for the two files: one object; `ObjResidualAcc` holds; the line the encoder writes is accepted;
+the stored duration is `0.25` and the duration read back from the encoder's line is `0.24999999999999997`; consequently the
+`duration` clause of `RepSpinner` / `RepHold` is FALSE of the decoded object. -/
+def driftB (h : HitObject Float Float32) : Bool :=
+  match h.kind with
+  | .spinner sp => decide (Scalar.max ((h.startTime + sp.duration) - h.startTime) 0 ≠ sp.duration)
+  | .hold ho => decide (Scalar.max h.startTime (h.startTime + ho.duration) - h.startTime ≠ ho.duration)
+  | _ => false
+
+def durationBits (k : HitObjectKind Float Float32) : List UInt64 :=
+  match k with
+  | .spinner sp => [sp.duration.toBits]
+  | .hold ho => [ho.duration.toBits]
+  | _ => []
+
+/-- the object re-read from the line the encoder writes for `h`: accepted?, and the duration bits. -/
+def reread (mode : GameMode) (h : HitObject Float Float32) : Bool × List (List UInt64) :=
+  match encodeObject mode h with
+  | .ok t =>
+    let r := parseHitObjectLine mode ({} : HOCore Float Float32) (trimEnd t)
+    (r.2, r.1.hitObjects.map (fun o => durationBits o.kind))
+  | .error _ => (false, [])
+
+set_option synthInstance.maxSize 1000 in
+theorem ieeeAccLines_checked : ∀ l ∈ ieeeAccLines,
+    (decodeFinish (ieeeFileOf l)).map (fun m => (m.hitObjects.length, m.hitObjects.all objResidualAccB,
+      m.hitObjects.all driftB, m.hitObjects.map (fun h => (durationBits h.kind, reread m.general.mode h)))) =
+      (some (1, true, true, [([0x3FD0000000000000], true, [[0x3FCFFFFFFFFFFFFF]])]) :
+        Option (Nat × Bool × Bool × List (List UInt64 × Bool × List (List UInt64)))) := by
+  decide +kernel
+
+/-- **the hypotheses of `hitobjects_block_accepted_decoded_ieee` are satisfiable on objects that are NOT `RepObject`**: the
+drifting spinner and hold note. Their block is accepted (C04 holds), their duration is not recovered (C02 fails). -/
+theorem ieeeAccLines_accepted : ∀ l ∈ ieeeAccLines,
+    ∃ (st : BeatmapState Float Float32) (m : Beatmap Float Float32),
+      decodeBytes beatmapDecoder (ieeeFileOf l) = .ok st ∧ st.finish = .ok m ∧ m.hitObjects.length = 1 ∧
+      (∀ h ∈ m.hitObjects, ObjResidualAcc h) ∧
+      (∀ h ∈ m.hitObjects, ¬ RepObject IeeeRep64 IeeeRep32 m.general.mode h) ∧
+      ∃ H : List Str, encodeHitObjects m = .ok (unlines (str "[HitObjects]" :: H)) ∧ H.length = 1 ∧
+        ∀ st' : HOCore Float Float32, Accepts (parseHitObjectLine m.general.mode) st' (H.map trimEnd) := by
+  intro l hl
+  have hc := ieeeAccLines_checked l hl
+  cases hm : decodeFinish (ieeeFileOf l) with
+  | none => rw [hm] at hc; cases hc
+  | some m =>
+    rw [hm] at hc
+    simp only [Option.map_some, Option.some.injEq, Prod.mk.injEq] at hc
+    obtain ⟨c1, c2, c3, _⟩ := hc
+    obtain ⟨st, h1, h2⟩ := decodeFinish_spec hm
+    have hres : ∀ h ∈ m.hitObjects, ObjResidualAcc h :=
+      fun h hh => objResidualAcc_of_check h (List.all_eq_true.mp c2 h hh)
+    obtain ⟨H, e1, _, e3, e4⟩ := hitobjects_block_accepted_decoded_ieee _ st m h1 h2 hres
+    refine ⟨st, m, h1, h2, c1, hres, fun h hh hr => ?_, H, e1, by rw [e3, c1], fun st' => (e4 st').1⟩
+    have hb := List.all_eq_true.mp c3 h hh
+    unfold driftB at hb
+    cases hr with
+    | circle c hk _ => rw [hk] at hb; cases hb
+    | slider s d hk _ => rw [hk] at hb; cases hb
+    | spinner sp hk hr => rw [hk] at hb; exact (of_decide_eq_true hb) hr.duration
+    | hold ho hk hr => rw [hk] at hb; exact (of_decide_eq_true hb) hr.duration
+
+/-- **the full statement is false on the IEEE instances for a reason that is neither F17, F20 nor F21**: the drifting
+spinner (no custom sample file, no slider) is not `RepObject` (new finding: duration drift, C02). -/
+theorem decoded_objects_representable_statement_false_ieee :
+    ¬ decoded_objects_representable_statement Float Float32 IeeeRep64 IeeeRep32 := by
+  intro hst
+  obtain ⟨st, m, h1, h2, hlen, _, hnot, _⟩ := ieeeAccLines_accepted "256,192,0.09,12,0,0.34" (by simp [ieeeAccLines])
+  cases hobjs : m.hitObjects with
+  | nil => rw [hobjs] at hlen; cases hlen
+  | cons h rest =>
+    have hh : h ∈ m.hitObjects := by rw [hobjs]; exact List.mem_cons_self
+    exact hnot h hh (hst _ st m h1 h2 h hh)
+
+/-- a spinner and a hold note whose written end time exceeds the limit (`end_time_over_limit_float`). -/
+def ieeeOverLines : List String :=
+  ["256,192,-1.0000007152557373,12,0,2147483647", "64,192,-1.0000007152557373,128,0,2147483647:0:0:0:0:"]
+
+set_option synthInstance.maxSize 1000 in
+/-- **the `EndOk` residual is needed** (new finding: C04 fails on doubles): each file decodes and finalises to one object
+(stored duration `2147483648.000001`) violating `EndOk`, and the line `encode_hit_objects` writes for it — end time
+`2147483647.0000002` — is REJECTED by `parse_hit_objects`: the object is lost on re-decoding. -/
+theorem ieeeOverLines_rejected : ∀ l ∈ ieeeOverLines,
+    (decodeFinish (ieeeFileOf l)).map (fun m => (m.hitObjects.length, m.hitObjects.any objResidualAccB,
+      m.hitObjects.map (fun h => (durationBits h.kind, reread m.general.mode h)))) =
+      (some (1, false, [([0x41E0000000000002], false, [])]) :
+        Option (Nat × Bool × List (List UInt64 × Bool × List (List UInt64)))) := by
+  decide +kernel
+
+end Examples
+
 end Rosu.C04
